@@ -202,7 +202,7 @@ theorem burst_rename_chain_state (s : Sys) (a b c : P) (e : Ent) (inv : InvRec s
                 stopped := false },
        chainEvents (s.fs.renamed a c) a b c) := by
     unfold Sys.burst
-    simp only [hk, hs, hc, Bool.or_self, Bool.false_eq_true, if_false, hl, hgs, hem', hmo]
+    simp only [hk, hs, hc, Bool.or_self, Bool.false_eq_true, if_false, hl, hgs, hem', departed_nil _ hmo]
     simp [forgetAll_nil]
   rw [hburst]
   exact ⟨rfl, rfl, rfl, hc, inv4⟩
